@@ -64,7 +64,11 @@ func createArchive(
 func writeDictToArchive(d rel.Dict, w func(string, []byte) (io.Writer, error), parent string) error {
 	for e := d.DictEnumerator(); e.MoveNext(); {
 		k, v := e.Current()
-		name, is := rel.AsString(k.(rel.Set))
+		keySet, is := k.(rel.Set)
+		if !is {
+			return errors.Errorf("dict key %v not a string", k)
+		}
+		name, is := rel.AsString(keySet)
 		if !is {
 			return errors.Errorf("dict key %v not a string", k)
 		}
